@@ -151,6 +151,10 @@ def run_case(ck, case, reqs, pending):
         ck.count("rejected_no_equations"); return
     method, an = case.get("method"), case.get("allow_negatives", True)
     kw = {"allow_negatives": an}
+    if an is False and case["seed"] % 3 == 0:
+        # "negatives disallowed" given as another falsy value, as it comes out of a numpy comparison or a flag stored as 0
+        kw["allow_negatives"] = [np.bool_(False), 0][(case["seed"] // 3) % 2]
+        ck.count("allow_negatives_given_as_numpy_or_int_false")
     if method:
         kw["method"] = method
     if method == "lsq" and case["seed"] % 2 == 0:
